@@ -9,18 +9,18 @@ import (
 
 // Thin exported wrappers for the C28 correspondence harness.
 
-const VerifMainnetConsensusReferenceForkAt = mainnetConsensusReferenceForkAt
+const VerifC28MainnetConsensusReferenceForkAt = mainnetConsensusReferenceForkAt
 
-func (node *Node) VerifValidateKernelSnapshot(s *common.Snapshot, found map[crypto.Hash]*common.VersionedTransaction, finalized bool) error {
+func (node *Node) VerifC28ValidateKernelSnapshot(s *common.Snapshot, found map[crypto.Hash]*common.VersionedTransaction, finalized bool) error {
 	return node.validateKernelSnapshot(s, found, finalized)
 }
 
-func (node *Node) VerifValidateConsensusTransactionReferences(s *common.Snapshot, tx *common.VersionedTransaction) error {
+func (node *Node) VerifC28ValidateConsensusTransactionReferences(s *common.Snapshot, tx *common.VersionedTransaction) error {
 	return node.validateConsensusTransactionReferences(s, tx)
 }
 
-func (node *Node) VerifNetworkId() crypto.Hash { return node.networkId }
+func (node *Node) VerifC28NetworkId() crypto.Hash { return node.networkId }
 
-// VerifSetNetworkId lets the harness run the validators under the mainnet flag
+// VerifC28SetNetworkId lets the harness run the validators under the mainnet flag
 // (node.networkId == config.KernelNetworkId) on a generated genesis.
-func (node *Node) VerifSetNetworkId(id crypto.Hash) { node.networkId = id }
+func (node *Node) VerifC28SetNetworkId(id crypto.Hash) { node.networkId = id }
